@@ -54,7 +54,7 @@ def _parse_worker(args):
             return ('ok', canon(r) if r is not None else ('none',))
         return ('ok', ('list',) + tuple(canon(g) for g in r))
     except Exception as e:  # noqa
-        return ('raise', codec.exc_class(e), getattr(e, 'line', None), getattr(e, 'col', None))
+        return ('raise', codec.exc_class(e), getattr(e, 'line', None), getattr(e, 'col', None), getattr(e, 'grid_str', None))
 
 
 def _scalar_worker(args):
